@@ -5,11 +5,20 @@
     * window locality: after at least `n` inputs the window — hence every sliding-window spec, and by
       C02/C04 the output of the corresponding machine — is that of a FRESH instance (constructed with
       any value) fed the last inputs only; nothing about the longer past is remembered;
+      (`C07_specs_locality`; `C07_window_specs_locality` for SWMA, LinReg, SMM, Conv, variance / StDev, MeanAbsDev,
+      MedianAbsDev, Highest, Lowest, HighestIndex, LowestIndex);
     * the exponential recurrences restart from their own value and forget the starting value like
       (1-α)^k (with 0 ≤ α ≤ 1 the dependence is bounded by the difference of the starting values);
     * position counters: the model of the reversal detectors counts positions in unbounded `Nat`
       (as the repaired code does in `usize`), so nothing happens at PeriodType::MAX; HighestIndex's
       counter never exceeds the window length (`C07_index_counter_bounded` via C04's run is validated).
+    * a formal drift bound for SMA under the standard model of floating-point arithmetic (every operation exact up to
+      relative error u, no overflow / underflow): the float recursion `value += (x − prev)·divider` stays within
+      `t·(1+u)^t·u·M·(1 + 6(1+u)³/n)` of the exact model after t steps on inputs bounded by M (`C07_sma_float_drift`) —
+      the linear shape of the allowance of DESIGN §3.2; the rounding function is a parameter, IEEE round-to-nearest is
+      one instance (that instance is assumed, not proved, to satisfy the standard model).
+    * for the exponential recurrence the same model gives a bound that does not grow at all: the update is contractive and
+      the drift stays below `c/(1−ρ)` at every step of every stream (`C07_ema_float_drift_uniform`).
   These reduce "every history length" to a bounded suffix.  Floating-point drift of the running
   accumulators over 10^4 … 10^6+ steps is measured, not proved: the correspondence run drives every
   method for a long stream with regime changes and compares, at late positions (dense around 255, 256,
@@ -17,6 +26,9 @@
   k = t + n), and every single update of the recursive methods with one exact model step (L-step).
 -/
 import YataProofs.Locality
+import YataProofs.LocalityAll
+import YataProofs.FloatBound
+import YataProofs.FloatBoundEMA
 namespace Yata.C07
 open Yata
 variable {α : Type} {K : Type} [Field K] [LinearOrder K] [IsStrictOrderedRing K]
@@ -28,6 +40,47 @@ theorem C07_specs_locality (n : Nat) (v w : K) (xs ys : List K) (h : n ≤ ys.le
     Spec.sma n v (xs ++ ys) = Spec.sma n w ys ∧ Spec.wma n v (xs ++ ys) = Spec.wma n w ys ∧
     Spec.integral n v (xs ++ ys) = Spec.integral n w ys :=
   ⟨sma_locality n v w xs ys h, wma_locality n v w xs ys h, integral_locality n v w xs ys h⟩
+
+theorem C07_window_specs_locality [Inhabited K] (n : Nat) (hn : 2 ≤ n) (v w : K) (xs ys : List K) (h : n ≤ ys.length)
+    (ws : List K) (hw : ws.length ≤ ys.length) :
+    Spec.swma n v (xs ++ ys) = Spec.swma n w ys ∧
+    Spec.linreg n v (xs ++ ys) = Spec.linreg n w ys ∧
+    Spec.smm n v (xs ++ ys) = Spec.smm n w ys ∧
+    Spec.conv ws v (xs ++ ys) = Spec.conv ws w ys ∧
+    Spec.variance n v (xs ++ ys) = Spec.variance n w ys ∧
+    Spec.meanAbsDev n v (xs ++ ys) = Spec.meanAbsDev n w ys ∧
+    Spec.medianAbsDev n v (xs ++ ys) = Spec.medianAbsDev n w ys ∧
+    Spec.highest n v (xs ++ ys) = Spec.highest n w ys ∧
+    Spec.lowest n v (xs ++ ys) = Spec.lowest n w ys ∧
+    Spec.highestIndex n v (xs ++ ys) = Spec.highestIndex n w ys ∧
+    Spec.lowestIndex n v (xs ++ ys) = Spec.lowestIndex n w ys := window_specs_locality n hn v w xs ys h ws hw
+
+/-- SMA's drift is at most linear in the number of steps (standard model of rounding; `fl` any rounding with relative
+    error ≤ u, `d` the rounded `1/n`) -/
+theorem C07_sma_float_drift {P n : Nat} (hn : 0 < n) (M : K) (fl : K → K) (u : K) (hu : 0 ≤ u)
+    (hfl : ∀ x, |fl x - x| ≤ u * |x|) (d : K) (hd : |d - 1 / (n : K)| ≤ u / (n : K))
+    (xs hist : List K) (s : SMA K) (hinv : SMA.Inv P n hist s) (hh : ∀ x ∈ hist, |x| ≤ M) (hx : ∀ x ∈ xs, |x| ≤ M) :
+    ∃ outs s', runM SMA.next s xs = .ok (outs, s') ∧
+      |FloatBound.smaFl fl d s.value (FloatBound.pairsOfRun s xs) - s'.value| ≤
+        (xs.length : K) * (1 + u) ^ xs.length * (u * M * (1 + 6 * (1 + u) ^ 3 / (n : K))) :=
+  FloatBound.sma_float_drift hn M fl u hu hfl d hd xs hist s hinv hh hx
+
+/-- EMA's drift is bounded uniformly in the length of the stream (standard model of rounding; ρ < 1 holds whenever α is
+    not of the order of the unit round-off) -/
+theorem C07_ema_float_drift_uniform (fl : K → K) (u : K) (hu : 0 ≤ u) (hfl : ∀ x, |fl x - x| ≤ u * |x|)
+    (α : K) (h0 : 0 ≤ α) (h1 : α ≤ 1) (a : K) (ha : |a - α| ≤ u * α) (M : K)
+    (hρ : (1 + u) * (1 - α + ((1 + u) ^ 3 - 1) * α) < 1)
+    (xs : List K) (hx : ∀ x ∈ xs, |x| ≤ M) (v0 : K) (hv : |v0| ≤ M) :
+    |FloatBound.emaFl fl a v0 xs - Spec.emaRec α v0 xs| ≤
+      ((1 + u) * ((1 + u) ^ 3 - 1) * α * (2 * M) + u * M) / (1 - (1 + u) * (1 - α + ((1 + u) ^ 3 - 1) * α)) := by
+  have hpos : 0 < 1 - (1 + u) * (1 - α + ((1 + u) ^ 3 - 1) * α) := by linarith
+  have hM : 0 ≤ M := le_trans (abs_nonneg _) hv
+  have hc : 0 ≤ (1 + u) * ((1 + u) ^ 3 - 1) * α * (2 * M) + u * M := by
+    have : 0 ≤ (1 + u) ^ 3 - 1 := by nlinarith [sq_nonneg u, mul_nonneg hu (sq_nonneg u)]
+    positivity
+  apply FloatBound.ema_drift_uniform fl u hu hfl α h0 h1 a ha M hρ _ _ xs hx v0 v0 hv
+  · simp only [sub_self, abs_zero]; exact div_nonneg hc (le_of_lt hpos)
+  · rw [mul_div_cancel₀ _ (ne_of_gt hpos)]
 
 theorem C07_recurrence_restarts (a v : K) (xs ys : List K) :
     Spec.emaRec a v (xs ++ ys) = Spec.emaRec a (Spec.emaRec a v xs) ys := emaRec_append_list a v xs ys
@@ -47,3 +100,6 @@ end Yata.C07
 #print axioms Yata.C07.C07_recurrence_restarts
 #print axioms Yata.C07.C07_exponential_forgetting
 #print axioms Yata.C07.C07_forgetting_bound
+#print axioms Yata.C07.C07_window_specs_locality
+#print axioms Yata.C07.C07_sma_float_drift
+#print axioms Yata.C07.C07_ema_float_drift_uniform
